@@ -20,6 +20,8 @@ structure Cfg where
   borrowMax : Nat        -- subscriber_max_borrowed_samples
   overflow : Bool        -- enable_safe_overflow
   expired : Nat          -- config: subscriber_expired_connection_buffer
+  /-- `PortFactoryPublisher::override_sample_preallocation`: every publisher of the world asks for this many chunks -/
+  prealloc : Option Nat := none
 deriving Repr
 
 structure SubEntry where
@@ -602,8 +604,15 @@ deriving Repr
 /-- the builder clamps a zero limit to one -/
 def clamp1 (n : Nat) : Nat := if n = 0 then 1 else n
 
-def Cfg.nChunks (c : Cfg) (maxLoans : Nat) : Nat :=
+/-- `required_amount_of_samples_per_data_segment`: the worst case -/
+def Cfg.fullChunks (c : Cfg) (maxLoans : Nat) : Nat :=
   c.maxSubs * (c.bufMax + c.borrowMax) + c.hist + maxLoans
+
+/-- chunks of a publisher's data segment: the worst case, or the override clamped into `1 ..= worst case` -/
+def Cfg.nChunks (c : Cfg) (maxLoans : Nat) : Nat :=
+  match c.prealloc with
+  | none => c.fullChunks maxLoans
+  | some k => max 1 (min k (c.fullChunks maxLoans))
 
 def anyHasData (w : World) (s : Nat) : List (Nat × Nat) → Bool
   | [] => false
@@ -815,7 +824,9 @@ def step (w : World) : Op → World × String
 
 /-- what the service builder guarantees about a created service -/
 def Cfg.Sane (c : Cfg) : Prop :=
-  1 ≤ c.maxPubs ∧ 1 ≤ c.maxSubs ∧ 1 ≤ c.bufMax ∧ 1 ≤ c.borrowMax ∧ (c.overflow = false → c.hist ≤ c.bufMax)
+  1 ≤ c.maxPubs ∧ 1 ≤ c.maxSubs ∧ 1 ≤ c.bufMax ∧ 1 ≤ c.borrowMax ∧ (c.overflow = false → c.hist ≤ c.bufMax) ∧
+  -- the memory guarantees are given for the default preallocation only (documented at the override)
+  c.prealloc = none
 
 instance (c : Cfg) : Decidable c.Sane := by unfold Cfg.Sane; exact inferInstance
 
